@@ -48,13 +48,14 @@ public:
 	long pub_http_code = 200;
 	int pub_fetches = 0;
 	bool fault_fired = false;               // a transport fault of the armed script actually hit the call in progress
+	bool fault_ambiguous = false;           // a reset arrived right after the last byte of the reply: the client may or may not have the reply (both outcomes are legitimate)
 	CallEnv env;                            // script for the call in progress
 	std::vector<ServedRequest> served;
 	void setup(int ver, int alg, size_t keylen, size_t loginlen, bool aggr_http, bool ext_http);
 	void install_hooks();
 	void attach(KSI_CTX *ctx);              // KSI_CTX_setAggregator / setExtender / publications URL
 	void arm(const CallEnv &e) {
-		env = e; env.armed = true; progress_ = 0; replied_ = false; fault_fired = false;
+		env = e; env.armed = true; progress_ = 0; replied_ = false; fault_fired = false; fault_ambiguous = false;
 		if (e.fault == 4) for (int ep : {aggr_ep, ext_ep}) if (ep >= 0) sim::N.eps[(size_t)ep].sndbuf_cap = 40;
 	}
 	void disarm() { for (int ep : {aggr_ep, ext_ep}) if (ep >= 0 && (size_t)ep < sim::N.eps.size()) sim::N.eps[(size_t)ep].sndbuf_cap = (size_t)1 << 22; env = CallEnv(); }
